@@ -162,6 +162,84 @@ pub fn render_text(parser: &liquid::Parser, text: &str, data: &Object) -> Obs {
     }
 }
 
+/// The same as `render_text`, but the source reaches the parser through `Parser::parse_file` (the text
+/// is written to a scratch file of this process first).  `None` when the scratch file cannot be written.
+pub fn render_text_via_file(parser: &liquid::Parser, text: &str, data: &Object) -> Option<Obs> {
+    let dir = std::env::temp_dir().join(format!("liquid-verif-harness-{}", std::process::id()));
+    std::fs::create_dir_all(&dir).ok()?;
+    let path = dir.join("t.liquid");
+    std::fs::write(&path, text.as_bytes()).ok()?;
+    let r = catch_unwind(AssertUnwindSafe(|| {
+        let t = match parser.parse_file(&path) {
+            Ok(t) => t,
+            Err(e) => return Obs::ParseErr(e.to_string()),
+        };
+        render_both(&t, data)
+    }));
+    let _ = std::fs::remove_file(&path);
+    Some(match r {
+        Ok(o) => o,
+        Err(e) => Obs::Panic(panic_msg(e)),
+    })
+}
+
+fn unhex(s: &str) -> Option<String> {
+    if s.len() % 2 != 0 {
+        return None;
+    }
+    let bytes: Option<Vec<u8>> = (0..s.len() / 2).map(|i| u8::from_str_radix(&s[2 * i..2 * i + 2], 16).ok()).collect();
+    String::from_utf8(bytes?).ok()
+}
+
+/// `harness --render-one`: the body of a child process that renders ONE template once and prints the
+/// observation.  stdin: line 1 = hex(template), line 2 = hex(JSON of the data), further lines =
+/// `hex(name) hex(source)` of the partials.  Used as a reference that shares NOTHING with the parent
+/// process (no static, no thread-local, no allocator state).
+pub fn render_one_from_stdin() {
+    use std::io::BufRead;
+    let stdin = std::io::stdin();
+    let lines: Vec<String> = stdin.lock().lines().map_while(|l| l.ok()).collect();
+    let text = lines.first().and_then(|l| unhex(l.trim())).unwrap_or_default();
+    let data: Object = lines.get(1).and_then(|l| unhex(l.trim())).and_then(|j| serde_json::from_str(&j).ok()).unwrap_or_default();
+    let mut src = InMemorySource::new();
+    for l in lines.iter().skip(2) {
+        let mut it = l.split_whitespace();
+        if let (Some(n), Some(t)) = (it.next().and_then(unhex), it.next().map(|t| unhex(t).unwrap_or_default())) {
+            src.add(n, t);
+        }
+    }
+    let parser = liquid::ParserBuilder::with_stdlib().partials(LazyCompiler::new(src)).build().unwrap();
+    println!("{}", render_text(&parser, &text, &data).tokens());
+}
+
+/// Run `render_one_from_stdin` in a child process of this very executable; `None` when the child
+/// could not be run.
+pub fn render_in_child(partials: &[PartialDef], text: &str, data: &Object) -> Option<String> {
+    use std::io::Write;
+    use std::process::{Command, Stdio};
+    let exe = std::env::current_exe().ok()?;
+    let mut child = Command::new(exe).arg("--render-one").stdin(Stdio::piped()).stdout(Stdio::piped()).stderr(Stdio::null()).spawn().ok()?;
+    {
+        let mut input = String::new();
+        input.push_str(&crate::proto::hex(text));
+        input.push('\n');
+        input.push_str(&crate::proto::hex(&serde_json::to_string(data).ok()?));
+        input.push('\n');
+        for (name, p) in partials {
+            let t = match p {
+                Ok(t) => src_tmpl(t),
+                Err(s) => s.clone(),
+            };
+            input.push_str(&format!("{} {}\n", crate::proto::hex(name), crate::proto::hex(&t)));
+        }
+        child.stdin.take()?.write_all(input.as_bytes()).ok()?;
+    }
+    let out = child.wait_with_output().ok()?;
+    let s = String::from_utf8(out.stdout).ok()?;
+    let s = s.trim().to_string();
+    if s.is_empty() { None } else { Some(s) }
+}
+
 /// Render an already parsed template (the SAME `Template` object may be rendered many times).
 pub fn render_parsed(t: &Result<liquid::Template, String>, data: &Object) -> Obs {
     let r = catch_unwind(AssertUnwindSafe(|| {
